@@ -58,6 +58,15 @@ def main():
             sf.set_semantic_constraints(t)
             held.append(t)
             set_mut = False
+        elif r < 0.29 and held and any(isinstance(o, dict) and "?" in o for o in held):
+            # parameter sweep: edit a dict the caller already holds (possibly the one installed last) and install it again
+            o = rng.choice([o for o in held if isinstance(o, dict) and "?" in o])
+            o[rng.choice(["C", "N", "O", "S", "?"])] = rng.choice([1, 2, 3, 4, 6])
+            try:
+                sf.set_semantic_constraints(o)
+            except ValueError:
+                pass
+            set_mut = False
         elif r < 0.33:
             bad = rng.choice([{"C": 4}, {"C": -1, "?": 8}, {"Qq": 1, "?": 8}, {"C": 2.5, "?": 8}, "nope", 7, {"C+0": 1, "?": 3}])
             try:
